@@ -214,3 +214,45 @@ def run(F, rep, tier):
     rep.analysed = {"conversion_impls": n, "conversion_structs": len(conv), "reshape_sites": nsites, "scalar_pair_arms": n1}
     from rules.loopshape import c12_reshape_allocation
     c12_reshape_allocation(F, rep)
+    run_r6(F, rep, avk)
+
+
+def run_r6(F, rep, avk):
+    """Value::convert_to: the scalar pair table used for option / set / table-column targets"""
+    rep.rule("C12-R6", "Value::convert_to scalar arms: `(Value::A(v), ValueKind::B)` builds Value::B from `*v.borrow() as T` with T the element type of B and exactly one cast "
+                      "(an intermediate narrower cast truncates or clamps values the target kind can hold)")
+    its = [it for it in F.syn("mech_core.lib") if it["k"] == "method" and it["name"] == "convert_to" and X.type_head(it["self"]) == "Value"]
+    if not rep.check(len(its) == 1, "C12-R6", "anchor:Value::convert_to", "Value::convert_to not found (%d)" % len(its)):
+        return
+    n = 0
+    for m in find(its[0]["body"], "match"):
+        for arm in m[2]:
+            p = arm[0]
+            if p[0] != "ptuple" or len(p[1]) != 2:
+                continue
+            src_, tgt = p[1]
+            if not (src_[0] == "pts" and src_[1].startswith("Value::") and tgt[0] == "ppath" and re.search(r"(^|::)ValueKind::\w+$", tgt[1])):
+                continue
+            ka, kb = src_[1].split("::")[-1], tgt[1].split("::")[-1]
+            binder = [b[1] for b in find(src_, "pident")]
+            body = arm[2]
+            built = [c for c in find(body, "call") if path_of(c[1]) and path_of(c[1]).startswith("Value::")]
+            if not built or not binder:
+                continue
+            n += 1
+            c = built[0]
+            variant = path_of(c[1]).split("::")[-1]
+            casts = [x for x in find(c, "cast")]
+            key = "%s->%s" % (ka, kb)
+            if variant != kb:
+                rep.bad("C12-R6", key + ":builds-" + variant, "convert_to arm (%s, %s) builds Value::%s: the value gets a kind other than the annotated one" % (src_[1], tgt[1], variant), "expanded line %d" % arm[3])
+                continue
+            if ka == kb and not casts:
+                rep.ok("C12-R6", key, sample={"arm": key, "form": "identity"})
+                continue
+            inner = re.sub(r"\s", "", render(casts[0][1])) if casts else ""
+            ok = len(casts) == 1 and avk.get(casts[0][2].strip()) == kb and inner.replace("(", "").replace(")", "") == "*%s.borrow" % binder[0]
+            rep.check(ok, "C12-R6", key if ok else key + ":cast-chain:" + ">".join(x[2].strip() for x in reversed(casts)),
+                      "convert_to arm (%s, %s) converts through `%s`: expected the single cast `*%s.borrow() as <element type of %s>`; a detour through another type loses range or precision the target can represent" % (
+                          src_[1], tgt[1], render(c[2][0])[:60] if c[2] else "", binder[0], kb), "expanded line %d" % arm[3], sample={"arm": key, "expr": render(c[2][0])[:60] if c[2] else ""})
+    rep.floor("C12-R6", "convert_to scalar arms", n, 120)
